@@ -231,6 +231,7 @@ def run(ctx):
                     body = uv(tid) + bytes([sign | m, f])
                     samples.append(observe(uv(d.value[0]) + uv(len(body)) + body, False))
     # ---- through the token lookup API
+    napi = [0]
     for _ in range(60 if ctx.quick else 600):
         # every LRRP document id, those with a constant data table included (the caller sets no table: the document has none of its own)
         d = rng.choice(lrrp_ids)
@@ -243,14 +244,20 @@ def run(ctx):
         try:
             rid = LRRP.get_token("request-id", bytes(rng.getrandbits(8) for _ in range(4)), {}, is_request=is_req)
             doc.parts.append(rid)
-            if not is_req and rng.random() < 0.6:
+            # the three forms of 'result' and their result codes are walked through by a counter (every special value occurs in
+            # every run, whatever the seed): 0 - the value a truthiness test takes for absent - first
+            codes = [0, 1, 5, 127, 128, 200, 70000, 2 ** 28, 2 ** 32 - 1]
+            if not is_req:
+                napi[0] += 1
+            form = napi[0] % 5
+            if not is_req and form in (0, 1, 2):
                 # 0x39 is the 'result' element that carries a value (operation-error); by name the zero-length 0x37/0x38 come first
-                doc.parts.append(LRRP.get_token(0x39, bytes(rng.getrandbits(8) for _ in range(3)), {"result-code": rng.choice([0, 0, 1, 5, 127, 128, 200, 70000, 2 ** 32 - 1])}, is_request=False))
-            elif not is_req and rng.random() < 0.5:
+                doc.parts.append(LRRP.get_token(0x39, bytes(rng.getrandbits(8) for _ in range(3)), {"result-code": codes[(napi[0] // 5) % len(codes)]}, is_request=False))
+            elif not is_req and form == 3:
                 doc.parts.append(LRRP.get_token("result", b"", {0x23: 0}, is_request=False))
             elif not is_req:
                 # the content-less result with a result code of its own (0x37), found by name + attribute name
-                doc.parts.append(LRRP.get_token("result", b"", {"result-code": rng.choice([1, 5, 127, 128, 200, 70000, 2 ** 32 - 1])}, is_request=False))
+                doc.parts.append(LRRP.get_token("result", b"", {"result-code": codes[1:][(napi[0] // 5) % (len(codes) - 1)]}, is_request=False))
             if not is_req and rng.random() < 0.5:
                 doc.parts.append(LRRP.get_token("speed-hor", rng.randrange(300) + rng.randrange(128) / 128, {}, is_request=False))
             for t in doc.parts:
